@@ -299,10 +299,11 @@ const (
 	LayoutLongLine = 100
 )
 
-var wsSeps = []string{" ", "  ", "\t", "\n", "\r\n", "\n\n  ", " \t ", "\n\t"}
+// a carriage return on its own is white space for the lexer and does not start a new line
+var wsSeps = []string{" ", "  ", "\t", "\n", "\r\n", "\n\n  ", " \t ", "\n\t", "\r", " \r "}
 var commentSeps = []string{
 	" /* c */ ", "\n/* multi\n   line */\n", " /* a /* nested */ b */ ", " /* é日本ß */ ", " // line\n", "\t// ß 日本\r\n",
-	" /**/ ", " /* * / */ ", " //\n", " /* \"q\" */ ",
+	" /**/ ", " /* * / */ ", " //\n", " /* \"q\" */ ", " // ends at a carriage return\r",
 }
 
 func safeLeft(s string) bool {
